@@ -594,20 +594,18 @@ void convex_hull(const Array<Vec2> points, Array<Vec2>& result) {
             qh_facet = qh_nextfacet2d(qh_facet, &qh_vertex);
         }
     } else if (exitcode == qh_ERRsingular) {
-        // QHull errors for singular input (collinear points in 2D)
-        Vec2 min = {DBL_MAX, DBL_MAX};
-        Vec2 max = {-DBL_MAX, -DBL_MAX};
+        // QHull errors for singular input (collinear points in 2D): the hull is the segment
+        // between the two extreme input points (lexicographic order picks them for any direction,
+        // including vertical lines), or a single point when all points coincide.
+        Vec2 min = points[0];
+        Vec2 max = points[0];
         Vec2* p = points.items;
         for (uint64_t num = points.count; num > 0; num--, p++) {
-            if (p->x < min.x) min.x = p->x;
-            if (p->x > max.x) max.x = p->x;
-            if (p->y < min.y) min.y = p->y;
-            if (p->y > max.y) max.y = p->y;
+            if (p->x < min.x || (p->x == min.x && p->y < min.y)) min = *p;
+            if (p->x > max.x || (p->x == max.x && p->y > max.y)) max = *p;
         }
-        if (min.x < max.x) {
-            result.append(min);
-            result.append(max);
-        }
+        result.append(min);
+        if (max.x != min.x || max.y != min.y) result.append(max);
     } else {
         // The least we can do
         result.extend(points);
